@@ -269,8 +269,11 @@ class Agg:
             for k, v in rec.get("hp", {}).items():
                 self.hook_probes[k] += v
                 self.hook_probe_runs[k] += 1
-            if "ops" in rec and len(self.samples) < 3 and rec.get("ok"):
+            if "ops" in rec and rec.get("ok"):
+                # candidates for the written-out samples: keep the three richest of the first 40 runs
                 self.samples.append(rec)
+                self.samples.sort(key=lambda r: (-(min(r.get("pre", 0), 1) + min(r.get("f", {}).get("alloc_recycle", 0), 1)), -len(r.get("ops", [])) - len(r.get("choices", [])) // 8))
+                del self.samples[3:]
             if not rec.get("ok"):
                 slim = {k: v for k, v in rec.items() if k not in ("choices", "ops", "cfg", "sim")}
                 slim["flavour"] = flavour
@@ -319,7 +322,7 @@ def run_batch(prop, spec, tier, seed, agg):
                 continue
             while count > 0:
                 args = ["--runs", str(first), "1", str(count), "--seed", str(seed), "--tier", tier,
-                        "--full-first", "3" if flavour == "plain" else "0"] + wd_args(spec, tier)
+                        "--full-first", "40" if flavour == "plain" else "0"] + wd_args(spec, tier)
                 recs, rc, err = run_worker(harness, flavour, args, cpu)
                 done = 0
                 for r in recs:
@@ -630,7 +633,9 @@ def handle_failures(prop, spec, seed, tier, agg, known):
                 else:
                     c2, ex = classify_stderr(err)
                     g.append(dict(ok=False, cls=norm_class(c2 or "died:rc=%d" % rc), fp="0", detail=ex, norecord=True))
-            good = (not any(x.get("ok") for x in g)) and g[0].get("cls") == g[1].get("cls") and g[0].get("fp") == g[1].get("fp")
+            # (a wall-clock hang is cut off at an arbitrary moment: its fingerprint is not comparable)
+            good = (not any(x.get("ok") for x in g)) and g[0].get("cls") == g[1].get("cls") and \
+                (g[0].get("fp") == g[1].get("fp") or g[0].get("cls") == "hang_wallclock")
             return good, g
         good, g = gate(flavour)
         if (not good or g[0].get("cls") == "crash") and flavour != "asan" and "asan" in spec["runs"][tier] and os.path.exists(binpath(harness, "asan")):
@@ -674,7 +679,7 @@ def handle_failures(prop, spec, seed, tier, agg, known):
             (cls, len(full.get("ops", [])), len(state["ops"]), len(full.get("choices", [])), len(state["choices"] or []), sh.tests))
         final = run_replay(harness, flavour, state, watchdog=wd)
         final2 = run_replay(harness, flavour, state, watchdog=wd)
-        if final.get("ok") or final.get("cls") != cls or final.get("fp") != final2.get("fp"):
+        if final.get("ok") or final.get("cls") != cls or (final.get("fp") != final2.get("fp") and cls != "hang_wallclock"):
             log("SHRUNK-REPLAY-DIVERGES property=%s class=%s" % (prop, cls))
             fault = True
             continue
@@ -802,7 +807,7 @@ def main():
             repo_hook_probe_runs=dict(agg.hook_probe_runs),
             repo_hook_probes_expected_but_zero=[k for k in spec.get("expected_hook_probes", []) if agg.hook_probes.get(k, 0) == 0],
             probes_at_zero=zero_probes,
-            strategy_mix=dict(agg.strat),
+            strategy_mix=({} if spec.get("single_task") else dict(agg.strat)),
             threads_histogram={str(k): v for k, v in sorted(agg.threads.items())},
             components_real=spec["real"], components_stub=spec["stub"],
             known_findings_matched={k: v["count"] for k, v in known_hits.items()},
@@ -820,9 +825,10 @@ def main():
             json.dump(ev, f, indent=1)
     log("%s tier=%s seed=%d runs=%d (%s) distinct_nontrivial=%d failing=%d violations=%d known=%d wall=%.1fs (build %.1fs)" %
         (prop, tier, seed, total, dict(agg.n), len(agg.fps), len(agg.failures), len(violations), len(known_hits), wall, t_build))
-    if fault:
-        return 2
-    return 1 if violations else 0
+    # a gated, replayed violation is a verdict even if another candidate could not be reproduced
+    if violations:
+        return 1
+    return 2 if fault else 0
 
 
 if __name__ == "__main__":
